@@ -35,7 +35,7 @@ def run(model: Model, rep: Report, tier: str) -> None:
         "pipeline (C04) and normalize_marginalize (R13.4) are re-run. The value identity is the paper's theorem."
     )
     rep.trusted_base = ["Shpitser & Pearl 2008 (IDC soundness)", "C01/C02 rules for ID (re-run)", "C04 rules for the separation oracle (re-run)", "C14"]
-    rep.floors = {"R3.1": 1, "R3.2": 1, "R1.1": 1, "R4.1": 1, "R4.2": 1, "R13.4": 2}
+    rep.floors = {"R3.1": 1, "R3.2": 1, "R1.1": 1, "R4.1": 1, "R13.4": 2}
     from ..refcmp import load_reference, run_table
     from .common import graph_rewrite, rewriter
     from .idcommon import id_rewrite
